@@ -1189,6 +1189,10 @@ pred recHasKey(f int, k int, key []byte) := recKey(f, k) == bseq(key)
 
 func (*reader).GetByKey
     flags locks
+    // C14: a read error on a candidate is the answer (return 4: the error of message.Reader.Get, unchanged); it is never
+    // skipped in favour of an older candidate. Six returns: index, keys, mapping, candidate read, hit, not found
+    assert[errs_candidate] ret1 == err && err != nil at return 4
+    assert[errs_notfound]  ret1 == index.ErrKeyNotFound at return 6
     requires[locks] rdLocksFree() && ixLocksFree()
     // the mmap reader is used only while pinned, and the pin is dropped on every path
     assert[locks_pinned] r.messagesInuse >= old(r.messagesInuse) + 1 at call message.(*Reader).Get 1
